@@ -116,6 +116,12 @@ func (d *Driver) want(id string) bool {
 		return false
 	}
 
+	for ex := range d.opt.Except { // "family/*": all inputs of a family
+		if fam, ok := strings.CutSuffix(ex, "*"); ok && strings.HasPrefix(id, fam) {
+			return false
+		}
+	}
+
 	progress.Add(1)
 
 	if d.opt.Cursor != "" {
